@@ -234,14 +234,14 @@ func eval(c Case, sandbox string) hx.Result {
 		after := snapshot(sandbox)
 		created, changed, deleted := diff(before, after)
 		if werr != nil {
-			if strings.ContainsRune(name, 0) {
-				// no file system can store this name; the only requirement left is that nothing else happened
+			if strings.ContainsRune(name, 0) || len(filepath.Base(target)) > 255 {
+				// no file system can store this name (NUL, or longer than 255 bytes); the only requirement left is that nothing else happened
 				for _, p := range append(append(created, changed...), deleted...) {
 					if after[p] != "d" {
 						return fail("refused-write-changed-files", "WriteSpec failed but changed "+p, nil, []any{created, changed, deleted})
 					}
 				}
-				return hx.Result{Outcome: "write-refused:NUL-in-name", Nontrivial: true}
+				return hx.Result{Outcome: "write-refused:name-cannot-be-stored", Nontrivial: true}
 			}
 			return fail("write-fails", fmt.Sprintf("WriteSpec(%q) failed: %v", name, werr), relTarget, nil)
 		}
@@ -411,6 +411,26 @@ func main() {
 			}
 		}
 	}
+	// long transient ids: file names of 200..256 bytes made of one-, two- and three-byte characters
+	// (the limit of a file name is 255 BYTES; whatever the writer derives from the name must fit too)
+	nLong := 0
+	for _, unit := range []string{"a", "\u00e9", "\u20ac"} {
+		for _, total := range []int{200, 239, 240, 241, 245, 249, 250, 251, 253, 254, 255, 256} {
+			for _, ext := range []string{"", ".json"} {
+				fixed := len("vendor.com-class_") + len(ext)
+				if ext == "" {
+					fixed += len(".yaml")
+				}
+				k := (total - fixed) / len(unit)
+				id := strings.Repeat(unit, k) + strings.Repeat("a", total-fixed-k*len(unit)) + ext
+				for _, dc := range []dirConfig{dirConfigs[0], dirConfigs[3]} {
+					cases = append(cases, Case{Kind: "vendor.com/class", UseID: true, ID: []byte(id), IDStr: fmt.Sprintf("%d-byte name of %d-byte characters%s", total, len(unit), ext), Dirs: dc, Decoys: false, Api: "ForSpec"})
+					nLong++
+				}
+			}
+		}
+	}
+	r.Extra["long_file_names"] = nLong
 	r.Rule = fmt.Sprintf("%d Spec kinds (dots in vendor/class, classes ending in .json/.yaml, one-letter) x transient ids = every string of 0..%d tokens over %q (plus the non-transient name) x %d directory configurations (1-3 directories, last present / missing / nested missing / non-clean / repeated) x decoys (same name in lower directories, siblings, old file at the target, neighbours named after the target: other extension, no extension, .bak/.tmp/hidden) x both name APIs, and (non-transient names and ids of <=1 byte) on a cache with a past: created for other directories, used to write and remove a Spec there, then reconfigured; "+
 		"sequence per case: WriteSpec, Refresh+GetDevice, WriteSpec again, RemoveSpec, RemoveSpec again, WriteSpec of the first Spec again (twice: name free, file replaced by someone else), RemoveSpec, with a snapshot (paths, types, content hashes) of a sandbox three levels above the Spec directories before and after every step. "+
 		"Oracle: name is one path component; exactly one file created/replaced at the model path with the model encoding; top precedence after refresh; remove deletes exactly that file; removing an absent name succeeds. Distinct by construction; all non-trivial",
